@@ -5,13 +5,13 @@ PROPERTY = "C04"
 LEVEL = "exploration"
 CHUNK = 2
 RULE = ("per group every multiset of (label, score-level) rows with both labels present (sizes 2..3, thorough 4; 3 score levels, "
-        "thorough 4) x unordered tuples of 2..3 (thorough ..5) groups x constraints x admissible objectives x flip x grid sizes; "
+        "thorough 4; plus a near-tie palette with two levels 2e-6 apart) x unordered tuples of 2..3 (thorough ..5) groups x constraints x admissible objectives x flip x grid sizes; "
         "scores injected through a prefit pass-through estimator; oracle: per-group expected rate under _pmf_predict on the "
         "training rows, recomputed by loops, equal across groups within 1e-9 and probabilities finite in [0,1]; non-trivial = "
         "always (every case has >= 2 groups with both labels); distinct = distinct group tuples")
 ASSUMPTIONS = ["score values come from a 3(4)-level palette selected by VERIF_SEED; group sizes above the bound are not explored"]
 CLASSES = ["score_ties", "all_scores_equal_in_group", "grid_size_1", "p_ignore_positive", "flip_used",
-           "randomised_between_thresholds", "three_or_more_groups"]
+           "randomised_between_thresholds", "three_or_more_groups", "near_tie_scores"]
 
 cases = T.cases
 bounds = T.bounds
